@@ -42,6 +42,11 @@ class ExprPolicy:
     names: identifier universe; props: member-property universe; strs: literal values."""
 
     def __init__(self, levels, names, props, strs, max_args=(2, 1, 0), bin_ops=None, assign_ops=None, unary_ops=None, spans='concrete', spread=True, holes=True, optional_call=True, op_budget=None, budget_kinds=('Bin', 'Tpl', 'Call', 'Assign', 'Arrow', 'OptChain', 'New', 'Unary', 'Paren', 'Array', 'Member', 'Cond', 'Seq')):
+        self.pins = []                      # [(compiled uid regex, enum name, [variants])] consulted before the level rules
+        self.string_pins = []               # [(compiled uid regex, [strings])]
+        self.len_pins = []                  # [(compiled uid regex, [lengths])]
+        self.opt_pins = []                  # [(compiled uid regex, [0|1,...])]
+        self.import_callee = False
         self.op_budget = op_budget          # max number of non-leaf expression nodes in the whole input (None = unbounded)
         self.budget_kinds = set(budget_kinds)
         self.levels = levels
@@ -77,8 +82,27 @@ class ExprPolicy:
         }
 
     # ---------------------------------------------------------------- variants
+    def pin(self, uid_regex, enum, variants):
+        self.pins.append((re.compile(uid_regex), enum, variants))
+        return self
+
+    def pin_strings(self, uid_regex, strings):
+        self.string_pins.append((re.compile(uid_regex), strings))
+        return self
+
+    def pin_len(self, uid_regex, lens):
+        self.len_pins.append((re.compile(uid_regex), lens))
+        return self
+
+    def pin_opt(self, uid_regex, alts):
+        self.opt_pins.append((re.compile(uid_regex), alts))
+        return self
+
     def variants(self, g, enum, li):
         uid = li.uid
+        for rx, en, vs in self.pins:
+            if en == enum and rx.search(uid):
+                return vs
         if enum == 'Expr':
             allowed = [k for k in self.level(li.depth) if k not in NEVER_EXPR]
             role = li.role
@@ -139,7 +163,7 @@ class ExprPolicy:
                 return ['Str']
             return ['Str', 'Num', 'Null']
         if enum == 'Callee':
-            return ['Expr']
+            return ['Expr', 'Import'] if self.import_callee else ['Expr']
         if enum == 'MemberProp':
             return ['Ident', 'Computed']
         if enum == 'AssignTarget':
@@ -174,6 +198,9 @@ class ExprPolicy:
 
     # ---------------------------------------------------------------- vec lengths
     def vec_lengths(self, g, li, elem_ty):
+        for rx, lens in self.len_pins:
+            if rx.search(li.uid):
+                return lens
         role = li.role
         owner, f = role if role else (None, None)
         d = min(self.edepth(li.depth), len(self.max_args) - 1)
@@ -197,6 +224,9 @@ class ExprPolicy:
 
     # ---------------------------------------------------------------- strings
     def strings(self, g, li):
+        for rx, strs in self.string_pins:
+            if rx.search(li.uid):
+                return strs
         role = li.role
         owner, f = role if role else (None, None)
         if owner == 'Ident' and f == 'sym':
@@ -211,6 +241,9 @@ class ExprPolicy:
 
     # ---------------------------------------------------------------- options
     def options(self, g, li):
+        for rx, alts in self.opt_pins:
+            if rx.search(li.uid):
+                return alts
         role = li.role
         owner, f = role if role else (None, None)
         if f in TS_NONE_FIELDS:
@@ -469,6 +502,7 @@ class StmtPolicy(ExprPolicy):
 
     def __init__(self, stmt_levels, levels, names, props, strs, items=(1,), block_lens=(1,), directives=None, class_members=('Method', 'ClassProp', 'StaticBlock'), params=(0, 1), all_present=False, quotes=None, fn_body_lens=None, **kw):
         self.all_present = all_present
+        self.module_import = False
         self.quotes = quotes
         self.fn_body_lens = fn_body_lens
         ExprPolicy.__init__(self, levels, names, props, strs, **kw)
@@ -507,7 +541,13 @@ class StmtPolicy(ExprPolicy):
             out = [k.split(':')[1] for k in kinds if k.startswith('Decl:')]
             return out or ['Var']
         if enum == 'ModuleItem':
+            if getattr(self, 'module_import', False) and li.uid.endswith('P.body[0]'):
+                return ['Stmt', 'ModuleDecl']
             return ['Stmt']
+        if enum == 'ModuleDecl':
+            return ['Import']
+        if enum == 'ImportPhase':
+            return ['Evaluation']
         if enum == 'VarDeclOrExpr':
             return ['VarDecl', 'Expr']
         if enum == 'ForHead':
@@ -548,6 +588,8 @@ class StmtPolicy(ExprPolicy):
         if owner == 'Function' and f == 'params':
             return self.params
         if owner in ('Function', 'Param', 'Class', 'ClassProp') and f in ('decorators', 'implements'):
+            return [0]
+        if owner == 'ImportDecl':
             return [0]
         if owner == 'Class' and f == 'body':
             return [1]
